@@ -82,6 +82,8 @@ def r06_4(run):
              and not is_none_value(n.value)]
     if not plain:
         raise AnalysisError(f"{fi.short}: first-contribution store not found")
+    fx = facts(run)
+    _RESOLVE["f"] = lambda call: (lambda r: r if hasattr(r, "node") and hasattr(r, "qualname") else None)(fx.resolve_call(fi, call))
     for s in plain:
         ok = _layout_of_var(cfg, s.value, cfg.node_for(s), var, 0)
         run.ob("R06.4", loc(fi, s), fi.short, f"first contribution to {var}._grad is laid out like {var}.data", ok,
@@ -144,31 +146,91 @@ def r06_4(run):
            "`if self._base is None: return self._grad`" if ok else "owners do not return their own gradient")
 
 
+_RESOLVE = {}
+
+
 def _layout_of_var(cfg, value, at, var, depth) -> bool:
-    if depth > 5 or value is None:
+    """The value stored at node `at` is laid out in memory like <var>.data on every path: it is a buffer allocated *_like(<var>.data)
+    (then filled), or it reaches the store only over the equal-strides edge of a test comparing its strides with <var>.data.strides,
+    through layout-preserving maps (astype / np.copy keep order 'K')."""
+    import networkx as nx
+    from ..cfg import stmt_defines
+    from .util import buffer_fill
+    if depth > 6 or value is None:
         return False
     if isinstance(value, ast.Call):
         d = (dotted(value.func) or "").split(".")[-1]
-        if d in ("empty_like", "zeros_like", "ones_like", "full_like") and value.args and norm(value.args[0]) == f"{var}.data":
-            return True
+        return d in ("empty_like", "zeros_like", "ones_like", "full_like") and bool(value.args) and norm(value.args[0]) == f"{var}.data" \
+            and (kw(value, "order") is None or norm(kw(value, "order")) in ("'K'", "'A'"))
+    if not isinstance(value, ast.Name):
         return False
-    if isinstance(value, ast.Name):
-        defs = reaching_defs(cfg, value.id, at)
-        if not defs:
+    g = value.id
+    defs = reaching_defs(cfg, g, at)
+    if not defs:
+        return False
+    tests = []
+    for n, st in cfg.stmt.items():
+        if cfg.label.get(n) == "If" and isinstance(st, ast.Compare) and len(st.ops) == 1 and isinstance(st.ops[0], (ast.NotEq, ast.Eq)) \
+                and {norm(st.left), norm(st.comparators[0])} == {f"{g}.strides", f"{var}.data.strides"}:
+            tests.append((n, "false" if isinstance(st.ops[0], ast.NotEq) else "true"))
+    for d in defs:
+        if d == ENTRY:
             return False
-        res = []
-        for d in defs:
-            if d == ENTRY:
+        st = cfg.stmt[d]
+        v = getattr(st, "value", None)
+        if isinstance(v, ast.Name) and v.id != g:
+            bf = buffer_fill(cfg, v.id, d)
+            if bf is not None and norm(bf[1]) == f"{var}.data" and (kw(bf[0], "order") is None or norm(kw(bf[0], "order")) in ("'K'", "'A'")):
+                continue  # re-laid-out copy
+            return False
+        selfmap = isinstance(st, ast.AugAssign) or (isinstance(v, ast.Call) and (
+            (isinstance(v.func, ast.Attribute) and v.func.attr == "astype" and norm(v.func.value) == g and kw(v, "order") is None)
+            or ((dotted(v.func) or "") in ("np.copy", "numpy.copy") and v.args and norm(v.args[0]) == g and (kw(v, "order") is None or norm(kw(v, "order")) in ("'K'", "'A'")))))
+        if not selfmap and isinstance(v, ast.Call) and isinstance(v.func, ast.Name) and _RESOLVE.get("f") is not None:
+            # a small repo helper every return of which is its parameter, np.copy(parameter) (order 'K') or parameter.astype(...)
+            h = _RESOLVE["f"](v)
+            if h is not None and hasattr(h, "node") and not h.node.args.vararg:
+                params = [a_.arg for a_ in h.node.args.args]
+                pos = [i for i, a_ in enumerate(v.args) if norm(a_) == g]
+                rets = [r for r in own_nodes(h.node) if isinstance(r, ast.Return)]
+                if len(pos) == 1 and pos[0] < len(params) and rets:
+                    pn = params[pos[0]]
+
+                    def keeps(e):
+                        if isinstance(e, ast.IfExp):
+                            return keeps(e.body) and keeps(e.orelse)
+                        if isinstance(e, ast.Name):
+                            return e.id == pn
+                        if isinstance(e, ast.Call):
+                            dd = dotted(e.func) or ""
+                            if dd in ("np.copy", "numpy.copy") and e.args and norm(e.args[0]) == pn and (kw(e, "order") is None or norm(kw(e, "order")) in ("'K'", "'A'")):
+                                return True
+                            if isinstance(e.func, ast.Attribute) and e.func.attr == "astype" and norm(e.func.value) == pn and kw(e, "order") is None:
+                                return True
+                        return False
+                    selfmap = all(r.value is not None and keeps(r.value) for r in rets) and \
+                        not any(isinstance(x, ast.Name) and x.id == pn and isinstance(x.ctx, ast.Store) for x in own_nodes(h.node))
+        if selfmap:
+            if not _layout_of_var(cfg, ast.Name(id=g, ctx=ast.Load()), d, var, depth + 1):
                 return False
-            st = cfg.stmt[d]
-            v = getattr(st, "value", None)
-            if isinstance(st, ast.AugAssign) or (isinstance(v, ast.Call) and isinstance(v.func, ast.Attribute) and v.func.attr == "astype"
-                                                   and norm(v.func.value) == value.id and any(k.arg == "copy" for k in v.keywords)):
-                res.append(_layout_of_var(cfg, ast.Name(id=value.id, ctx=ast.Load()), d, var, depth + 1))
-            else:
-                res.append(_layout_of_var(cfg, v, d, var, depth + 1))
-        return all(res)
-    return False
+            continue
+        if isinstance(v, ast.Call) and _layout_of_var(cfg, v, d, var, depth + 1):
+            continue
+        # any other definition: every definition-clear path from it to `at` must take the equal-strides edge
+        if not tests:
+            return False
+        h = cfg.g.copy()
+        h.remove_nodes_from([n for n, s2 in cfg.stmt.items() if n not in (d, at) and s2 is not None and stmt_defines(s2, g)])
+        for t, kind in tests:
+            if t not in h:
+                continue
+            for b in list(h.successors(t)):
+                kinds = cfg.g[t][b].get("kinds", set())
+                if kind in kinds and len(kinds) == 1:
+                    h.remove_edge(t, b)
+        if d in h and at in h and nx.has_path(h, d, at):
+            return False
+    return True
 
 
 def check(run):
